@@ -485,19 +485,23 @@ type Rig struct {
 	Node  *chainx.Node
 	C     *vh.Case
 
-	snaps        map[int]kvx.Image // pre-apply snapshot of the latest application of a block
-	applied      map[int][]MDiff   // the diffs of that application, as the node's own consensus call produced them
-	Tainted      bool              // a reverted block left an expiration list permuted (the known class)
-	RevResTaint  bool              // a reverted block carried a revised-and-resolved contract
-	Panicked     bool
-	PanicMsg     string
-	V2Batches    int // batches submitted through AddValidatedV2Blocks
-	Applies      int
-	Reverts      int
-	UnstableRevs int
-	KnownHits    int
-	twins        map[int]*twinInfo
-	preRevert    ExpLists
+	snaps       map[int]kvx.Image // pre-apply snapshot of the latest application of a block
+	applied     map[int][]MDiff   // the diffs of that application, as the node's own consensus call produced them
+	Tainted     bool              // a reverted block left an expiration list permuted (the known class)
+	RevResTaint bool              // a reverted block carried a revised-and-resolved contract
+	Panicked    bool
+	PanicMsg    string
+	V2Batches   int // batches submitted through AddValidatedV2Blocks
+	// intermediate-tip supplement probes: after a store operation that leaves the tip at a height h
+	// with h % ProbeMod == ProbeRem (ProbeMod 0 = off)
+	ProbeMod, ProbeRem uint64
+	Probes             int
+	Applies            int
+	Reverts            int
+	UnstableRevs       int
+	KnownHits          int
+	twins              map[int]*twinInfo
+	preRevert          ExpLists
 
 	// options used by C03
 	Quiet    bool                          // pass store calls through without observing them
@@ -608,6 +612,8 @@ func (r *Rig) after(apply bool, s consensus.State, blockID types.BlockID, ds []M
 	} else {
 		r.Tips = append(r.Tips, r.T.Blocks[id].Parent)
 	}
+	// (after the revert has been classified below: a permuted expiration list taints the history)
+	defer func() { r.probeSupplement(r.Tips[len(r.Tips)-1], img) }()
 	if r.CommitMode {
 		r.C.Op(fmt.Sprintf("%s %d %d", verb, id, b01(r.OnFlag())), line+" | durable "+r.Durable())
 		if apply {
@@ -701,6 +707,63 @@ func only(m map[string][]byte, klen int) map[string][]byte {
 
 // TwinNode returns the (cached) linear twin of a fully valid block.
 func (r *Rig) TwinNode(tip int) *chainx.Node { return r.twin(tip).nd }
+
+// probeSupplement asks the store, at the tip a store operation inside a reorg has just produced,
+// for the supplement of a synthetic v1 block that touches every stored element, and compares it
+// with what a linear node of that tip hands out (elements and their Merkle proofs, trimmed to the
+// tip's accumulator size).
+func (r *Rig) probeSupplement(tid int, img kvx.Image) {
+	if r.ProbeMod == 0 || r.Panicked || r.RevResTaint || !r.T.AllValid(tid) {
+		return
+	}
+	tb := r.T.Blocks[tid]
+	if tb.Height%r.ProbeMod != r.ProbeRem || tb.Height+1 >= r.T.Net.N.HardforkV2.RequireHeight {
+		return
+	}
+	var txn types.Transaction
+	for _, k := range img.Keys(bSC) {
+		txn.SiacoinInputs = append(txn.SiacoinInputs, types.SiacoinInput{ParentID: types.SiacoinOutputID([]byte(k))})
+	}
+	for _, k := range img.Keys(bSF) {
+		txn.SiafundInputs = append(txn.SiafundInputs, types.SiafundInput{ParentID: types.SiafundOutputID([]byte(k))})
+	}
+	for _, k := range img.Keys(bFC) {
+		if len(k) == 32 {
+			txn.FileContractRevisions = append(txn.FileContractRevisions, types.FileContractRevision{ParentID: types.FileContractID([]byte(k))})
+		}
+	}
+	if len(txn.SiacoinInputs)+len(txn.SiafundInputs)+len(txn.FileContractRevisions) == 0 {
+		return
+	}
+	probe := types.Block{ParentID: tb.Block.ID(), Transactions: []types.Transaction{txn}}
+	r.Probes++
+	var got []byte
+	if msg := guard(func() { got = encode(r.Node.Store.SupplementTipBlock(probe)) }); msg != "" {
+		r.C.Oracle("supplement-at-intermediate-tip-panics", "SupplementTipBlock at intermediate tip %d (height %d) panicked: %s", tid, tb.Height, msg)
+		return
+	}
+	want := encode(r.twin(tid).nd.Store.SupplementTipBlock(probe))
+	if bytes.Equal(got, want) {
+		return
+	}
+	if r.Tainted {
+		r.KnownHits++
+		r.C.Oracle(ClassExpOrder, "supplement at intermediate tip %d differs from the linear node's (history reverted a mid-list removal)", tid)
+		return
+	}
+	r.C.Oracle("supplement-at-intermediate-tip-differs-from-twin", "inside a reorg, at tip %d (height %d), SupplementTipBlock for a v1 block touching every stored element differs from what a linear node of that tip hands out (elements or proof lengths)", tid, tb.Height)
+}
+
+func guard(f func()) (msg string) {
+	defer debug.SetPanicOnFault(debug.SetPanicOnFault(true))
+	defer func() {
+		if p := recover(); p != nil {
+			msg = firstLine(fmt.Sprint(p))
+		}
+	}()
+	f()
+	return ""
+}
 
 // ShareTwins makes r use (and fill) the twin cache of o (same tree).
 func (r *Rig) ShareTwins(o *Rig) { r.twins = o.twins }
